@@ -2,7 +2,10 @@
 
 package pipeline
 
-import "sync/atomic"
+import (
+	"reflect"
+	"sync/atomic"
+)
 
 // Verification hooks, compiled only with -tags verif.
 // verifTrace reports one labelled step from inside the critical section that performs it;
@@ -25,12 +28,33 @@ const (
 	vtRetryResult      = 13
 	vtRetryGiveUp      = 14
 	vtBatchNotReady    = 15
+	vtStreamPut        = 20
+	vtStreamGet        = 21
+	vtStreamLeave      = 22
+	vtStreamDetach     = 23
+	vtStreamAttach     = 24
+	vtStreamCommit     = 25
+	vtStreamBlock      = 26
+	vtStreamTimeout    = 27
+	vtStreamCharge     = 28
+	vtStreamPop        = 29
+	vtProcDo           = 30
+	vtProcResult       = 31
+	vtProcOut          = 32
+	vtFinal            = 33
+	vtProcPropagate    = 35
+	vtProcSpawn        = 36
+	vtProcTimeoutTo    = 37
+	vtInputCommit      = 38
 )
 
 // Gate points.
 const (
 	vgBatchAfterUnlock      = 1
 	vgBatchBeforeCommitWait = 2
+	vgStreamAfterPop        = 3
+	vgProcBeforeOut         = 4
+	vgStreamBeforeUnblock   = 5
 )
 
 // Exported names of the labels for the harness.
@@ -50,8 +74,29 @@ const (
 	VtRetryResult           = vtRetryResult
 	VtRetryGiveUp           = vtRetryGiveUp
 	VtBatchNotReady         = vtBatchNotReady
+	VtStreamPut             = vtStreamPut
+	VtStreamGet             = vtStreamGet
+	VtStreamLeave           = vtStreamLeave
+	VtStreamDetach          = vtStreamDetach
+	VtStreamAttach          = vtStreamAttach
+	VtStreamCommit          = vtStreamCommit
+	VtStreamBlock           = vtStreamBlock
+	VtStreamTimeout         = vtStreamTimeout
+	VtStreamCharge          = vtStreamCharge
+	VtStreamPop             = vtStreamPop
+	VtProcDo                = vtProcDo
+	VtProcResult            = vtProcResult
+	VtProcOut               = vtProcOut
+	VtFinal                 = vtFinal
+	VtProcPropagate         = vtProcPropagate
+	VtProcSpawn             = vtProcSpawn
+	VtProcTimeoutTo         = vtProcTimeoutTo
+	VtInputCommit           = vtInputCommit
 	VgBatchAfterUnlock      = vgBatchAfterUnlock
 	VgBatchBeforeCommitWait = vgBatchBeforeCommitWait
+	VgStreamAfterPop        = vgStreamAfterPop
+	VgProcBeforeOut         = vgProcBeforeOut
+	VgStreamBeforeUnblock   = vgStreamBeforeUnblock
 )
 
 type (
@@ -102,4 +147,17 @@ func verifBatchSeq(b *Batch) int64 {
 		return -1
 	}
 	return b.seq
+}
+
+// verifID gives a stable identity (the address) of a pointer-like object for trace labels; 0 for nil.
+func verifID(x any) int64 {
+	if x == nil {
+		return 0
+	}
+	v := reflect.ValueOf(x)
+	switch v.Kind() {
+	case reflect.Ptr, reflect.Map, reflect.Chan, reflect.Func, reflect.UnsafePointer:
+		return int64(v.Pointer())
+	}
+	return 0
 }
